@@ -378,7 +378,6 @@ func isBuiltinCall(c *ssa.CallCommon) bool {
 	return ok
 }
 
-
 // resolvedCallID looks through thin forwarding functions of the module: when the static callee's whole body is one
 // call whose result it returns (a method that only forwards to another function or to an interface method), the
 // identity of that inner call is returned instead. A refactor that inlines or introduces such a forwarder does not
